@@ -40,6 +40,10 @@ fn entry_of<T: AsEntry>(x: T) -> Option<engine::transposition::Entry> {
 pub enum Op {
     Store { key: u64, eval: i32, mv: Option<[u8; 4]>, depth: u8, bound: u8 },
     Retrieve { key: u64 },
+    /// A new table takes the place of the old one (as `ucinewgame` does with the whole
+    /// searcher): `keep_old` = the new one is built while the old one still exists, else the
+    /// old one is dropped first. Whatever the old table held was never given to the new one.
+    NewTable { keep_old: bool },
 }
 
 impl Op {
@@ -47,9 +51,13 @@ impl Op {
         match self {
             Op::Store { key, eval, mv, depth, bound } => json!({"op": "store", "key": format!("{:016x}", key), "eval": eval, "mv": mv, "depth": depth, "bound": bound}),
             Op::Retrieve { key } => json!({"op": "retrieve", "key": format!("{:016x}", key)}),
+            Op::NewTable { keep_old } => json!({"op": "new_table", "keep_old": keep_old}),
         }
     }
     fn from_json(v: &Value) -> Option<Op> {
+        if v["op"].as_str()? == "new_table" {
+            return Some(Op::NewTable { keep_old: v["keep_old"].as_bool().unwrap_or(false) });
+        }
         let key = u64::from_str_radix(v["key"].as_str()?, 16).ok()?;
         match v["op"].as_str()? {
             "store" => Some(Op::Store {
@@ -222,6 +230,21 @@ pub fn replay_ops(ops: &[Op]) -> (Option<(String, String)>, Counters) {
             for (i, op) in ops.iter().enumerate() {
                 let at = |v: (String, String)| (v.0, format!("op {}: {}", i, v.1));
                 match op {
+                    Op::NewTable { keep_old } => {
+                        if *keep_old {
+                            let old = std::mem::replace(&mut tt, TranspositionTable::new());
+                            drop(old);
+                        } else {
+                            // drop first, then build (a placeholder keeps `tt` initialised)
+                            let old = std::mem::replace(&mut tt, TranspositionTable::new());
+                            drop(old);
+                            let placeholder = std::mem::replace(&mut tt, TranspositionTable::new());
+                            drop(placeholder);
+                        }
+                        // nothing was ever stored into this table
+                        last.clear();
+                        probes.add("tables_replaced_within_a_history", 1);
+                    }
                     Op::Store { key, eval, mv, depth, bound } => {
                         let before = match seen_of(entry_of(tt.retrieve(*key)), *key) {
                             Ok(x) => x,
@@ -286,8 +309,14 @@ pub fn synthetic_history(rng: &mut Rng) -> Vec<Op> {
     // one history in three draws its scores from a handful of values: equal scores with
     // other bounds and depths on one key (what fail-hard window edges produce in a search)
     let coarse = rng.chance(1, 3);
+    // one history in four replaces the table one to three times on the way (what ucinewgame
+    // does with the searcher): the new table was never given anything, whatever the old held
+    let replace_rate = if rng.chance(1, 4) { (3 * 1000 / n.max(1)).clamp(1, 200) } else { 0 };
     (0..n)
         .map(|_| {
+            if rng.below(1000) < replace_rate {
+                return Op::NewTable { keep_old: rng.chance(1, 2) };
+            }
             let key = *rng.pick(&keys);
             if rng.chance(2, 5) {
                 Op::Retrieve { key }
